@@ -11,7 +11,10 @@ EXTENDS FieldOps, Json
 
 CONSTANTS Shapes,      \* subset of {0, 1, 2}: 0-d, (3,), (2,2)
           NFields,     \* numbers of fields of the initial array (subset of 1..4)
-          Rots,        \* type assignments: field k gets Types[(r + s*(k-1)) % 8 + 1], r = Rot % 8, s = 1 or 3
+          Rots,        \* type assignments: field k gets Types[(r + s*(k-1)) % 12 + 1], r = Rot % 12, s = 1 (Rot < 12) or 5
+          NameStyles,  \* how the (symbolic) field names are spelt in the real arrays: 0 plain, 1 names that differ only in
+                       \* case + long names, 2 non-ASCII names (the adapter owns the spelling table; the algebra is name-blind)
+          NameCover,   \* TRUE: one style per scenario, (shape + #fields + rot) % 3 (a pairwise covering design); FALSE: all of them
           MaxDepth,    \* chain length
           Names1,      \* max length of a name selection in the first operation (all names of the array + a missing one)
           NamesN,      \* ... in later operations (first two names, last name, a missing one)
@@ -23,18 +26,33 @@ CONSTANTS Shapes,      \* subset of {0, 1, 2}: 0-d, (3,), (2,2)
 VARIABLES key, cur, prev, hist
 vars == <<key, cur, prev, hist>>
 
-T(kind, sub, order) == [kind |-> kind, sub |-> sub, order |-> order]
-Types == << T("i4", <<>>, "<"), T("i4", <<>>, ">"), T("f8", <<>>, "<"), T("f8", <<>>, ">"),
-            T("S3", <<>>, "|"), T("U2", <<>>, "<"), T("i2", <<2>>, "<"), T("f4", <<2, 2>>, "<") >>
+T(kind, sub, order) == [kind |-> kind, sub |-> sub, order |-> order, inner |-> <<>>]
+Fld(name, t, tok) == [name |-> name, kind |-> t.kind, sub |-> t.sub, order |-> t.order, inner |-> t.inner, tok |-> tok]
+Struct(sub, inner) == [kind |-> "struct", sub |-> sub, order |-> "|", inner |-> inner]
+In(name, t) == Fld(name, t, "-")
+\* nested structured fields: inner names equal to outer names ("a", "b"), to the name no array has ("zz": a
+\* request can list ALL inner names of ST1), to the name of an added field ("p") and of a field of another array
+\* of a combination ("x") - none of them is a field name of the array -; inner sub-arrays, inner byte orders, a
+\* second level, a sub-array of structures
+ST1 == Struct(<<>>, <<In("a", T("f4", <<>>, ">")), In("zz", T("i2", <<2>>, "<"))>>)
+ST2 == Struct(<<2>>, <<In("b", T("U2", <<>>, ">")),
+                       In("m", Struct(<<>>, <<In("a", T("i4", <<>>, ">")), In("x", T("f8", <<>>, "<"))>>)),
+                       In("p", T("S3", <<>>, "|"))>>)
+Types == << T("i4", <<>>, "<"), ST1, T("f8", <<>>, ">"), T("S3", <<>>, "|"),
+            T("i4", <<>>, ">"), T("U2", <<>>, "<"), T("i2", <<2>>, "<"), ST2,
+            T("f8", <<>>, "<"), T("f4", <<2, 2>>, "<"), T("b1", <<8>>, "|"), T("c8", <<>>, ">") >>
+NT == 12
 ShapeOf(s) == CASE s = 0 -> <<>> [] s = 1 -> <<3>> [] s = 2 -> <<2, 2>>
 OtherSize(s) == CASE s = 0 -> <<2>> [] s = 1 -> <<4>> [] s = 2 -> <<3>>     \* a shape of a different size
 FieldNames == <<"a", "b", "c", "d">>
 Missing == "zz"
 
-Fld(name, t, tok) == [name |-> name, kind |-> t.kind, sub |-> t.sub, order |-> t.order, tok |-> tok]
-TypeAt(r, k) == Types[(((r % 8) + (IF r < 8 THEN 1 ELSE 3) * (k - 1)) % 8) + 1]
+TypeAt(r, k) == Types[(((r % NT) + (IF r < NT THEN 1 ELSE 5) * (k - 1)) % NT) + 1]
 InitArr(s, n, r) == FOArr(ShapeOf(s), [k \in 1..n |-> Fld(FieldNames[k], TypeAt(r, k), "A." \o FieldNames[k])])
-Flip(t) == IF t.order = "<" THEN [t EXCEPT !.order = ">"] ELSE IF t.order = ">" THEN [t EXCEPT !.order = "<"] ELSE t
+\* the same type in the other byte order (through every level of a nested field)
+RECURSIVE Flip(_)
+Flip(t) == [t EXCEPT !.order = IF @ = "<" THEN ">" ELSE IF @ = ">" THEN "<" ELSE @,
+                     !.inner = [k \in DOMAIN t.inner |-> Flip(t.inner[k])]]
 
 \* the other arrays of a scenario depend on the initial array only (exported once per scenario)
 WithId(id, a) == [id |-> id, shape |-> a.shape, fields |-> a.fields]
@@ -74,8 +92,9 @@ Step(op) ==
 
 Start ==
     /\ key = <<>>
-    /\ \E s \in Shapes : \E n \in NFields : \E r \in Rots :
-          /\ key' = <<s, n, r>>
+    /\ \E s \in Shapes : \E n \in NFields : \E r \in Rots : \E ns \in NameStyles :
+          /\ NameCover => ns = (s + n + r) % 3
+          /\ key' = <<s, n, r, ns>>
           /\ cur' = InitArr(s, n, r) /\ prev' = InitArr(s, n, r) /\ hist' = <<>>
 
 Running == key # <<>>
@@ -85,14 +104,18 @@ Extract == CanStep /\ \E q \in NameSeqs : \E st \in StrictFor(q) : \E f \in Form
 Remove  == CanStep /\ \E q \in NameSeqs : \E f \in FormsFor(q) : Step(Op("remove", q, TRUE, f))
 Reorder == CanStep /\ \E q \in NameSeqs : \E st \in StrictFor(q) : \E f \in FormsFor(q) : Step(Op("reorder", q, st, f))
 
-\* descriptors of <= 2 new fields, with and without defaults; one that names an existing field
+\* descriptors of <= 2 new fields, with and without defaults; one that names an existing field;
+\* a new NESTED field (whose inner names exist at the top level: no clash, "a" inside "s" is not "a")
 AddSets ==
     LET r == key[3]
         p0 == Fld("p", TypeAt(r + 2, 2), "zero")   p1 == Fld("p", TypeAt(r + 2, 2), "d1")
         q0 == Fld("q", TypeAt(r + 5, 3), "zero")   q2 == Fld("q", TypeAt(r + 5, 3), "d2")
         a0 == Fld(cur.fields[1].name, TypeAt(r, 1), "zero")
+        s0 == Fld("s", ST1, "zero")                s2 == Fld("s", ST1, "d2")
     IN IF Lean THEN {<<p1>>, <<a0>>}
-       ELSE {<<p0>>, <<p1>>, <<q0, p0>>, <<p1, q2>>, <<a0>>} \cup (IF First THEN {<<q2>>, <<p0, a0>>, <<q2, p1>>} ELSE {})
+       ELSE {<<p0>>, <<p1>>, <<s0, p0>>, <<p1, q2>>, <<a0>>}
+            \cup (IF First THEN {<<q2>>, <<p0, a0>>, <<q2, p1>>, <<s2>>} ELSE {})
+            \cup (IF First /\ MaxDepth = 1 THEN {<<q0, p0>>, <<p1, s2>>, <<Fld("s", ST2, "zero")>>} ELSE {})
 Add == CanStep /\ \E d \in AddSets : \E f \in (IF First THEN {"descr", "dtype"} ELSE {"descr"}) :
           Step([Op("add", <<>>, TRUE, f) EXCEPT !.add = d])
 
